@@ -45,7 +45,7 @@ instance (t : Id) (attrs : List Attr) : PS (sinkUnit (.addAttrsIfMissing t attrs
       | ok d1 => simp [ha] at h'; rw [h'.1]
     obtain ⟨hb', hc', hk⟩ := addAttrsIfMissing_spec hl.base hd'
     exact ⟨hs.transfer (hl.dom hb' hc' (hk 0)).1 hc' (rs_addAttrs hl.base hd') (by rw [hk]; exact hs.rdoc)
-      rfl rfl rfl rfl rfl, hs.sameNames hc', rfl, rfl, rfl⟩⟩
+      rfl rfl rfl rfl rfl (addAttrs_adj hs.adj hd'), hs.sameNames hc', rfl, rfl, rfl⟩⟩
 
 instance (tag : Tag) : PS (inBodyHtml tag) := by unfold inBodyHtml; infer_instance
 
